@@ -14,6 +14,7 @@ func init() { register("C14", checkC14) }
 
 func checkC14(c *Ctx) {
 	p := mustLoad(c, K1)
+	indexLints(c, p, "ecc/*/fr/mimc", "ecc/*/fr/poseidon2", "field/*/poseidon2", "ecc/*/fr/sis", "field/*/sis", "hash")
 	eff := NewEffects(p)
 	aliasDyn = eff.dynCallees
 	mimcPkgs := p.FamilyPkgs("ecc/*/fr/mimc")
